@@ -6,7 +6,11 @@ Tie: (1) GenEditFacts.v regenerated from src/mxlpy/model.py: for each public mut
 machine (coq/edit/ModelSM.v) and the real Model run the same operation sequences, compared after
 EVERY step (outcome class, id registry, container keys, query answers; exact); (3) independent
 oracle: after every query a fresh Model is rebuilt from the raw content through the public add_* API
-and must answer identically; a rejected edit must leave ids and raw content untouched."""
+and must answer identically; a rejected edit must leave ids and raw content untouched.
+Second round: every edit is also made on a fresh rebuild of the content before it (edits depend on the content only), equal
+arguments of one history are ONE Python object, the caller's argument containers and the objects queries returned are
+overwritten after the call (containers cross the API as values), get_right_hand_side is probed after every query (queries
+leave no trace); GenEditFacts.v also carries the aliasing facts (harness/c03_facts.py::extract_alias)."""
 
 from __future__ import annotations
 
@@ -136,8 +140,48 @@ def errcode(e: BaseException) -> int:
     return c
 
 
-def apply_mutator(m, op: tuple) -> None:
-    from mxlpy.types import Derived
+_UNIQUE = itertools.count()
+
+
+class Inputs:
+    """The container objects one history hands to the mutators.  Equal abstract values share ONE Python object
+    (the same dict as stoichiometry= of two reactions, the same list as args= of several components, the same
+    mapping for two batch calls ...): the model must treat what it is given as a VALUE.  Two classes of use site:
+      "map"   stoichiometry= of add_/update_reaction, stoichiometries= of make_parameter_dynamic, the mapping / list
+              argument of the seven batch forms
+      "args"  args= lists of derived / reactions / readouts, args= / outputs= / stoichiometries= of add_/update_surrogate
+    `touched` collects (class, object) for the current call; run_history poisons them after the call."""
+
+    def __init__(self) -> None:
+        self.pool: dict = {}
+        self.touched: list[tuple[str, object]] = []
+        self.shared = 0  # calls that were handed an object an earlier call had been given already
+
+    def get(self, cls: str, key, build):
+        k = (cls, repr(key))
+        o = self.pool.get(k)
+        if o is None:
+            o = self.pool[k] = build()
+        else:
+            self.shared += 1
+        self.touched.append((cls, o))
+        return o
+
+
+def apply_mutator(m, op: tuple, inp: Inputs | None = None) -> None:
+    """one public mutator call; with `inp` the container arguments come from the history's pool of shared objects"""
+
+    def C(cls: str, key, build):
+        return build() if inp is None else inp.get(cls, key, build)
+
+    def names(x):
+        return None if x is None else C("args", ("names", tuple(x)), lambda: [nm(a) for a in x])
+
+    def sto(x):
+        return None if x is None else C("map", ("sto", x), lambda: {nm(c): modelgen.py_coef(cf) for c, cf in x})
+
+    def valmap(x):
+        return C("map", ("valmap", x), lambda: {nm(n): modelgen.py_valia(v) for n, v in x})
 
     k = op[0]
     if k == "add_parameter":
@@ -152,7 +196,7 @@ def apply_mutator(m, op: tuple) -> None:
         m.make_parameter_dynamic(
             nm(op[1]),
             None if op[2] is None else modelgen.py_valia(op[2]),
-            None if op[3] is None else {nm(r): q for r, q in op[3]},
+            None if op[3] is None else C("map", ("zmap", op[3]), lambda: {nm(r): q for r, q in op[3]}),
         )
     elif k == "add_variable":
         m.add_variable(nm(op[1]), modelgen.py_valia(op[2]))
@@ -163,30 +207,25 @@ def apply_mutator(m, op: tuple) -> None:
     elif k == "make_variable_static":
         m.make_variable_static(nm(op[1]), None if op[2] is None else modelgen.py_valia(op[2]))
     elif k == "add_derived":
-        m.add_derived(nm(op[1]), fn=fnlib.FNS[op[2]], args=[nm(a) for a in op[3]])
+        m.add_derived(nm(op[1]), fn=fnlib.FNS[op[2]], args=names(op[3]))
     elif k == "update_derived":
-        m.update_derived(nm(op[1]), None if op[2] is None else fnlib.FNS[op[2]], args=None if op[3] is None else [nm(a) for a in op[3]])
+        m.update_derived(nm(op[1]), None if op[2] is None else fnlib.FNS[op[2]], args=names(op[3]))
     elif k == "remove_derived":
         m.remove_derived(nm(op[1]))
     elif k == "add_reaction":
-        m.add_reaction(nm(op[1]), fn=fnlib.FNS[op[2]], args=[nm(a) for a in op[3]], stoichiometry={nm(c): modelgen.py_coef(cf) for c, cf in op[4]})
+        m.add_reaction(nm(op[1]), fn=fnlib.FNS[op[2]], args=names(op[3]), stoichiometry=sto(op[4]))
     elif k == "update_reaction":
-        m.update_reaction(
-            nm(op[1]),
-            None if op[2] is None else fnlib.FNS[op[2]],
-            args=None if op[3] is None else [nm(a) for a in op[3]],
-            stoichiometry=None if op[4] is None else {nm(c): modelgen.py_coef(cf) for c, cf in op[4]},
-        )
+        m.update_reaction(nm(op[1]), None if op[2] is None else fnlib.FNS[op[2]], args=names(op[3]), stoichiometry=sto(op[4]))
     elif k == "remove_reaction":
         m.remove_reaction(nm(op[1]))
     elif k == "add_readout":
-        m.add_readout(nm(op[1]), fn=fnlib.FNS[op[2]], args=[nm(a) for a in op[3]])
+        m.add_readout(nm(op[1]), fn=fnlib.FNS[op[2]], args=names(op[3]))
     elif k == "remove_readout":
         m.remove_readout(nm(op[1]))
     elif k == "add_surrogate":
-        m.add_surrogate(nm(op[1]), modelgen.py_surrogate(op[2]), **_sur_kwargs(op[3], op[4], op[5]))
+        m.add_surrogate(nm(op[1]), modelgen.py_surrogate(op[2]), **_sur_kwargs(op[3], op[4], op[5], C))
     elif k == "update_surrogate":
-        m.update_surrogate(nm(op[1]), None if op[2] is None else modelgen.py_surrogate(op[2]), **_sur_kwargs(op[3], op[4], op[5]))
+        m.update_surrogate(nm(op[1]), None if op[2] is None else modelgen.py_surrogate(op[2]), **_sur_kwargs(op[3], op[4], op[5], C))
     elif k == "remove_surrogate":
         m.remove_surrogate(nm(op[1]))
     elif k == "add_data":
@@ -196,11 +235,11 @@ def apply_mutator(m, op: tuple) -> None:
     elif k == "remove_data":
         m.remove_data(nm(op[1]))
     elif k in ("add_parameters", "update_parameters", "add_variables", "update_variables"):
-        getattr(m, k)({nm(n): modelgen.py_valia(v) for n, v in op[1]})
+        getattr(m, k)(valmap(op[1]))
     elif k == "scale_parameters":
-        m.scale_parameters({nm(n): q for n, q in op[1]})
+        m.scale_parameters(C("map", ("zmap", op[1]), lambda: {nm(n): q for n, q in op[1]}))
     elif k == "remove_parameters":
-        m.remove_parameters([nm(n) for n in op[1]])
+        m.remove_parameters(C("map", ("namelist", tuple(op[1])), lambda: [nm(n) for n in op[1]]))
     elif k == "remove_variables":
         m.remove_variables(iter([nm(n) for n in op[1]]), remove_stoichiometries=op[2])
     else:
@@ -220,40 +259,52 @@ def batch_items(op: tuple) -> list[tuple]:
     return [(SINGLE_OF[k], n, v) for n, v in d.items()]
 
 
-def _sur_kwargs(args, outs, sto) -> dict:
+def _sur_kwargs(args, outs, sto, C=None) -> dict:
+    if C is None:
+        C = lambda _cls, _key, build: build()  # noqa: E731
     return {
-        "args": None if args is None else [nm(a) for a in args],
-        "outputs": None if outs is None else [nm(o) for o in outs],
-        "stoichiometries": None if sto is None else {nm(o): {nm(c): modelgen.py_coef(cf) for c, cf in ent} for o, ent in sto},
+        "args": None if args is None else C("args", ("names", tuple(args)), lambda: [nm(a) for a in args]),
+        "outputs": None if outs is None else C("args", ("names", tuple(outs)), lambda: [nm(o) for o in outs]),
+        # never shared between calls: remove_variable / make_parameter_dynamic write into a surrogate's inner dicts in place
+        "stoichiometries": None if sto is None else C(
+            "args", ("sursto", next(_UNIQUE)), lambda: {nm(o): {nm(c): modelgen.py_coef(cf) for c, cf in ent} for o, ent in sto}),
     }
 
 
-def ask(m, q: tuple):
-    """-> ("ids", [...]) | ("pairs", [...]) | ("names", [...]) | ("err", code)"""
+def ask(m, q: tuple, raw: list | None = None):
+    """-> ("ids", [...]) | ("pairs", [...]) | ("names", [...]) | ("err", code); the object the method returned is appended to `raw`"""
     k = q[0]
+
+    def keep(x):
+        if raw is not None:
+            raw.append(x)
+        return x
+
     try:
         if k == "q_ids":
-            return ("ids", [(un(a), KINDCODE[b]) for a, b in m.ids.items()])
+            return ("ids", [(un(a), KINDCODE[b]) for a, b in keep(m.ids).items()])
         if k in ("q_args", "q_rhs"):
             vars_d = None if q[1] is None else {nm(a): float(b) for a, b in q[1]}
-            s = (m.get_args if k == "q_args" else m.get_right_hand_side)(vars_d, time=float(q[2]))
+            s = keep((m.get_args if k == "q_args" else m.get_right_hand_side)(vars_d, time=float(q[2])))
+            if vars_d is not None:
+                keep(vars_d)
             return ("pairs", [(un(a), common.exact_int(b)) for a, b in s.items()])
         if k == "q_fluxes":
             vars_d = None if q[1] is None else {nm(a): float(b) for a, b in q[1]}
-            s = m.get_fluxes(vars_d, time=float(q[2]))
+            s = keep(m.get_fluxes(vars_d, time=float(q[2])))
             return ("pairs", [(un(a), common.exact_int(b)) for a, b in s.items()])
         if k == "q_stoich":
             vars_d = None if q[1] is None else {nm(a): float(b) for a, b in q[1]}
-            df = m.get_stoichiometries(vars_d, time=float(q[2]))
+            df = keep(m.get_stoichiometries(vars_d, time=float(q[2])))
             rows, cols = [un(r) for r in df.index], [un(c) for c in df.columns]
             ent = [(un(r), un(c), common.exact_int(df.loc[r, c])) for r in df.index for c in df.columns]
             return ("table", sorted(rows), sorted(cols), sorted(ent))
         if k == "q_ic":
-            return ("pairs", [(un(a), common.exact_int(b)) for a, b in m.get_initial_conditions().items()])
+            return ("pairs", [(un(a), common.exact_int(b)) for a, b in keep(m.get_initial_conditions()).items()])
         if k == "q_parvals":
-            return ("pairs", [(un(a), common.exact_int(b)) for a, b in m.get_parameter_values().items()])
+            return ("pairs", [(un(a), common.exact_int(b)) for a, b in keep(m.get_parameter_values()).items()])
         if k == "q_derpar":
-            return ("names", [un(a) for a in m.get_derived_parameter_names()])
+            return ("names", [un(a) for a in keep(m.get_derived_parameter_names())])
     except ValueError as e:
         if "exactly representable" in str(e) or "non-finite" in str(e):
             raise Discard(str(e)) from e
@@ -384,7 +435,7 @@ def gen_sur(rng, name, names, free) -> tuple:
     return (name, mf, args, outs, st)
 
 
-def gen_batch(rng, choice: str, names, by, free, illegal: bool) -> tuple:
+def gen_batch(rng, choice: str, names, by, free, illegal: bool, hints: dict | None = None) -> tuple:
     """a batch form with 1-3 items; an illegal one gets a bad name (taken / unknown / other kind / repeated / time)
     at a random position, so that rejections happen at the first as well as at later items"""
     k = rng.choice([1, 2, 2, 3, 3])
@@ -397,6 +448,15 @@ def gen_batch(rng, choice: str, names, by, free, illegal: bool) -> tuple:
         return (choice, items)
     xs = by("parameter" if "parameter" in choice else "variable")
     ns = rng.sample(xs, min(k, len(xs))) if xs else []
+    ia = (hints or {}).get("ia") or {}
+    if choice == "scale_parameters" and ia and rng.random() < 0.6:
+        # an assignment-defined parameter together with a parameter it reads, in either order (seeded/C03-4)
+        p = rng.choice(sorted(ia))
+        deps = [a for a in ia[p] if a in xs and a != p]
+        pair = [rng.choice(deps), p] if deps else [p]
+        if rng.random() < 0.3:
+            pair.reverse()
+        ns = pair + [n for n in ns if n not in pair][: max(0, k - len(pair))]
     if illegal or not ns:
         ns.insert(rng.randint(0, len(ns)), rng.choice(POOL + [0, 31] + ns))
     if choice == "remove_parameters":
@@ -408,7 +468,7 @@ def gen_batch(rng, choice: str, names, by, free, illegal: bool) -> tuple:
     return (choice, [(n, gen_valia(rng, names)) for n in ns])
 
 
-def gen_op(rng, known: dict[int, str], force: str | None = None) -> tuple:
+def gen_op(rng, known: dict[int, str], force: str | None = None, hints: dict | None = None) -> tuple:
     """known: our (approximate) view of name -> kind, to make most ops legal; ~25% deliberately illegal."""
     names = list(known) + [0]
     by = lambda k: [n for n, kk in known.items() if kk == k]  # noqa: E731
@@ -436,7 +496,7 @@ def gen_op(rng, known: dict[int, str], force: str | None = None) -> tuple:
         return (q,)
     choice = rng.choice(METHODS + BATCH) if force is None else force
     if choice in BATCH:
-        return gen_batch(rng, choice, names, by, free, illegal)
+        return gen_batch(rng, choice, names, by, free, illegal, hints)
     need = {"parameter": "parameter", "variable": "variable", "derived": "derived", "reaction": "reaction", "readout": "readout",
             "surrogate": "surrogate", "data": "data"}
     kind_needed = next((v for k, v in need.items() if choice.endswith(k) and not choice.startswith("add_")), None)
@@ -481,13 +541,13 @@ def gen_op(rng, known: dict[int, str], force: str | None = None) -> tuple:
     if choice == "add_reaction":
         f, a = gen_fn(rng, names)
         tg = rng.sample(vars_, min(len(vars_), rng.randint(0, 2))) if vars_ else []
-        return (choice, newname(), f, a, [(c, gen_coef(rng, by("parameter"))) for c in tg])
+        return (choice, newname(), f, a, [(c, gen_coef(rng, by("parameter") + vars_)) for c in tg])
     if choice == "update_reaction":
         f, a = gen_fn(rng, names)
         tg = rng.sample(vars_, min(len(vars_), rng.randint(0, 2))) if vars_ else []
         mode = rng.random()
         return (choice, pick("reaction"), f if mode < 0.6 else None, a if mode < 0.6 else None,
-                [(c, gen_coef(rng, by("parameter"))) for c in tg] if rng.random() < 0.5 else None)
+                [(c, gen_coef(rng, by("parameter") + vars_)) for c in tg] if rng.random() < 0.5 else None)
     if choice == "remove_reaction":
         return (choice, pick("reaction"))
     if choice == "add_readout":
@@ -549,6 +609,32 @@ CORPUS: list[list[tuple]] = [
      ("update_derived", 13, 0, None), ("q_args", None, 0), ("remove_derived", 14), ("add_readout", 15, 4, [12]), ("q_ic",),
      ("remove_readout", 15), ("add_reaction", 15, 0, [11, 12], [(12, ("dyn", 2, [11]))]), ("q_rhs", None, 0),
      ("update_reaction", 15, None, [11], None), *_ALLQ],
+    # scale_parameters over a parameter and an assignment-defined parameter that reads it, after a query, in both orders: the
+    # later entry is scaled from the value the earlier entries of the SAME batch left behind (seeded/C03-4)
+    [("add_parameter", 11, ("plain", 2)), ("add_parameter", 17, ("ia", 4, [11, 11])), ("add_variable", 12, ("plain", 1)),
+     ("add_reaction", 14, 4, [12, 17], [(12, ("stat", -1))]), ("q_args", None, 0), ("scale_parameters", [(11, 2), (17, 3)]), *_ALLQ,
+     ("update_parameter", 17, ("ia", 2, [11, 11])), ("q_parvals",), ("scale_parameters", [(17, 3), (11, 2)]), *_ALLQ],
+    # ONE stoichiometry mapping for two reactions, then make_parameter_dynamic names one of them (seeded/C03-5); the same through
+    # update_reaction; the harness hands the same dict object to both calls and overwrites it afterwards
+    [("add_variable", 12, ("plain", 1)), ("add_variable", 16, ("plain", 2)), ("add_parameter", 11, ("plain", 2)),
+     ("add_parameter", 13, ("plain", 3)), ("add_reaction", 14, 4, [12, 11], [(12, ("stat", -1)), (16, ("stat", 1))]),
+     ("add_reaction", 15, 4, [16, 11], [(12, ("stat", -1)), (16, ("stat", 1))]), ("q_rhs", None, 0),
+     ("make_parameter_dynamic", 13, None, [(14, 1)]), *_ALLQ,
+     ("update_reaction", 14, None, None, [(12, ("stat", 2))]), ("update_reaction", 15, None, None, [(12, ("stat", 2))]), ("q_args", None, 0),
+     ("make_variable_static", 13, None), ("make_parameter_dynamic", 13, ("plain", 1), [(15, 2)]), *_ALLQ],
+    # a computed coefficient over a VARIABLE (dyn_stoich_by_cpds): get_stoichiometries for several states, every other query in
+    # between -- a query must not change what later queries answer (seeded/C03-6)
+    [("add_variable", 12, ("plain", 2)), ("add_variable", 16, ("plain", 1)), ("add_parameter", 11, ("plain", 2)),
+     ("add_reaction", 14, 4, [12, 11], [(12, ("stat", -1)), (16, ("dyn", 6, [12]))]),
+     ("add_reaction", 15, 4, [16, 11], [(16, ("named", 12))]),
+     ("q_stoich", None, 0), ("q_rhs", None, 0), ("q_stoich", [(12, -2), (16, 1)], 1), ("q_rhs", None, 0), ("q_rhs", [(12, 1), (16, 2)], 0),
+     ("q_fluxes", None, 0), ("q_stoich", None, 0), ("q_args", None, 0), ("update_parameter", 11, ("plain", 2)),
+     ("q_stoich", [(12, 2), (16, -1)], 0), *_ALLQ],
+    # update_derived(args=...) alone after a query: the answers follow the new wiring, errors included (seeded/C02-6)
+    [("add_parameter", 11, ("plain", 2)), ("add_parameter", 12, ("plain", 5)), ("add_derived", 13, 0, [11]), ("add_derived", 14, 1, [13]),
+     ("q_args", None, 0), ("update_derived", 13, None, [12]), ("q_args", None, 0), ("q_parvals",), ("q_derpar",),
+     ("update_derived", 13, None, [14]), ("q_args", None, 0), ("update_derived", 13, None, [31]), ("q_args", None, 0),
+     ("update_derived", 13, None, [11]), *_ALLQ],
 ]
 
 
@@ -717,9 +803,19 @@ def known_findings() -> list[dict]:
     return _FINDINGS
 
 
+FINDING_GETTERS = "C03-query-results-alias-cache"
+FINDING_INPUTS = "C03-mutators-keep-caller-lists"
+ALIASING_GETTERS = ("q_ic", "q_parvals")  # guard of FINDING_GETTERS: get_initial_conditions / get_parameter_values
+PROBE = ("q_rhs", None, 0)
+
+
+def listed(fid: str) -> bool:
+    return any(f.get("id") == fid for f in known_findings())
+
+
 def batch_listed() -> bool:
     """is the partial application of rejected batch edits a recorded finding (the tree before the fix)?"""
-    return any(f.get("id") == FINDING_BATCH for f in known_findings())
+    return listed(FINDING_BATCH)
 
 
 def partial_as_fold(before_model, op: tuple, after) -> bool:
@@ -733,49 +829,196 @@ def partial_as_fold(before_model, op: tuple, after) -> bool:
     return deep_content(before_model) == after
 
 
+def poison(objs) -> list:
+    """the CALLER changes objects it owns: every dict / list (recursively) is emptied and given one junk entry, a Series /
+    DataFrame is overwritten in place.  -> what is needed to undo it"""
+    import pandas as pd
+
+    saved: list = []
+    seen: set[int] = set()
+
+    def rec(o) -> None:
+        if id(o) in seen:
+            return
+        if isinstance(o, dict):
+            seen.add(id(o))
+            for v in list(o.values()):
+                rec(v)
+            saved.append((o, dict(o)))
+            o.clear()
+            o[nm(77)] = 77
+        elif isinstance(o, list):
+            seen.add(id(o))
+            for v in o:
+                rec(v)
+            saved.append((o, list(o)))
+            o.clear()
+            o.append(nm(77))
+        elif isinstance(o, (pd.Series, pd.DataFrame)):
+            seen.add(id(o))
+            saved.append((o, o.copy()))
+            if o.size:
+                o[:] = 77.0
+
+    for o in objs:
+        rec(o)
+    return saved
+
+
+def unpoison(saved: list) -> None:
+    import pandas as pd
+
+    for o, old in reversed(saved):
+        if isinstance(o, dict):
+            o.clear()
+            o.update(old)
+        elif isinstance(o, list):
+            o.clear()
+            o.extend(old)
+        elif isinstance(o, (pd.Series, pd.DataFrame)) and o.size:
+            o[:] = old.to_numpy()
+
+
+def safe_content(m):
+    try:
+        return deep_content(m)
+    except Exception as e:  # noqa: BLE001 -- a poisoned container inside the model can make it unreadable
+        return ("unreadable", type(e).__name__)
+
+
+def _count(stats: dict | None, fid: str, example) -> None:
+    if stats is not None:
+        k = stats.setdefault("known", {})
+        k[fid] = k.get(fid, 0) + 1
+        stats.setdefault("known_example", {}).setdefault(fid, example)
+
+
 def run_history(ops: list[tuple], stats: dict | None = None):
-    """-> (observations, violation or None).  Raises Discard for histories outside the modelled domain."""
+    """-> (observations, violation or None).  Raises Discard for histories outside the modelled domain.
+
+    Oracles (none of them consults the Coq model):
+      * after every query a fresh Model rebuilt from the raw content answers identically, and so does it for the probe
+        get_right_hand_side() asked right after the query (a query must not change later answers);
+      * the object a query returned is overwritten by the caller, the same query asked again answers as before;
+      * every edit is applied as well to a fresh Model rebuilt from the content before the edit (no cache, own argument
+        objects): same outcome, same content -- what an edit does depends on the content only;
+      * the container arguments of the edit (shared between the calls of the history, see Inputs) are overwritten by the
+        caller after the call: the content stays as it was;
+      * a rejected edit changes nothing; the registry is the union of the containers."""
     from mxlpy import Model
 
     m = Model()
     obs = []
     viol = None
-    listed = batch_listed()
+    listed_batch = batch_listed()
+    inp = Inputs()
     for i, op in enumerate(ops):
         if is_query(op):
-            a = ask(m, op)
+            raw: list = []
+            a = ask(m, op, raw)
             obs.append(a)
+            if viol is not None:
+                continue
             # oracle: a freshly built model with the same content answers identically
-            if viol is None:
+            try:
+                fresh = rebuild_fresh(m)
+                b = ask(fresh, op)
+            except Discard:
+                raise
+            except Exception as e:  # noqa: BLE001
+                b = ("rebuild-failed", f"{type(e).__name__}: {e}")
+            same = (a == b) if a[0] != "ids" else (dict(a[1]) == dict(b[1]))
+            if not same:
+                viol = (i, f"after the history, {op[0]} answers {a} but a freshly built model with the same content answers {b}")
+                continue
+            # the caller overwrites what it was handed; the same question is answered as before
+            saved = poison(raw)
+            try:
+                a2 = ask(m, op)
+            except Discard:
+                a2 = ("unreadable",)
+            unpoison(saved)
+            if a2 != a:
+                if op[0] in ALIASING_GETTERS and listed(FINDING_GETTERS):
+                    _count(stats, FINDING_GETTERS, {"history": list(ops[: i + 1])})
+                else:
+                    viol = (i, f"{op[0]} hands out an object that aliases the model: after the caller overwrote the returned "
+                               f"object the same query answers {a2} instead of {a}")
+                    continue
+            # a query does not change later answers: the right hand side asked now equals that of a fresh model
+            # (one that has not been asked `op` before)
+            if b[0] != "rebuild-failed":
                 try:
-                    fresh = rebuild_fresh(m)
-                    b = ask(fresh, op)
+                    pa = ask(m, PROBE)
+                    pb = ask(rebuild_fresh(m), PROBE)
                 except Discard:
-                    raise
+                    continue
                 except Exception as e:  # noqa: BLE001
-                    b = ("rebuild-failed", f"{type(e).__name__}: {e}")
-                same = (a == b) if a[0] != "ids" else (dict(a[1]) == dict(b[1]))
-                if not same:
-                    viol = (i, f"after the history, {op[0]} answers {a} but a freshly built model with the same content answers {b}")
+                    pa, pb = ("probe",), ("rebuild-failed", f"{type(e).__name__}: {e}")
+                if pa != pb:
+                    viol = (i, f"after {op[0]} was answered, get_right_hand_side answers {pa} but a freshly built model with the "
+                               f"same content answers {pb}: a query changed a later answer")
         else:
             before = deep_content(m)
-            snapshot = copy.deepcopy(m) if op[0] in BATCH else None
+            snapshot = copy.deepcopy(m) if op[0] in BATCH and listed_batch else None
+            twin = None
+            if viol is None:
+                try:
+                    twin = rebuild_fresh(m)
+                    if deep_content(twin)[1:] != before[1:] or dict(twin.ids) != before[0]:
+                        twin = None  # cannot happen while the registry is consistent; then this oracle is skipped
+                except Exception:  # noqa: BLE001
+                    twin = None
+            inp.touched = []
+            exc = None
+            if stats is not None:
+                _coverage(stats, m, op)
             try:
-                apply_mutator(m, op)
+                apply_mutator(m, op, inp)
                 rej = None
             except Exception as e:  # noqa: BLE001
+                exc = e
                 rej = errcode(e)
-                after = deep_content(m)
-                if after != before:
-                    # recorded finding (tree before fixes/C03-batch-edits-atomic.diff): a batch form is a plain fold and
-                    # leaves the items before the rejected one applied -- exactly that, nothing else, is excused
-                    if listed and snapshot is not None and partial_as_fold(snapshot, op, after):
-                        if stats is not None:
-                            stats["batch_partial"] = stats.get("batch_partial", 0) + 1
-                            stats.setdefault("batch_partial_example", {"history": list(ops[: i + 1]), "error": type(e).__name__})
-                    elif viol is None:
-                        viol = (i, f"rejected edit {op[0]} ({type(e).__name__}) changed the model: {before} -> {after}")
+            after = deep_content(m)
+            if rej is not None and after != before:
+                # recorded finding (tree before fixes/C03-batch-edits-atomic.diff): a batch form is a plain fold and
+                # leaves the items before the rejected one applied -- exactly that, nothing else, is excused
+                if listed_batch and snapshot is not None and partial_as_fold(snapshot, op, after):
+                    if stats is not None:
+                        stats["batch_partial"] = stats.get("batch_partial", 0) + 1
+                        stats.setdefault("batch_partial_example", {"history": list(ops[: i + 1]), "error": type(exc).__name__})
+                    twin = None
+                elif viol is None:
+                    viol = (i, f"rejected edit {op[0]} ({type(exc).__name__}) changed the model: {before} -> {after}")
             obs.append(("mut", rej, [(un(a), KINDCODE[b]) for a, b in m.ids.items()], content_keys(m), content_vals(m)))
+            # what an edit does depends on the content only: same call on a fresh model with the content before the edit
+            if viol is None and twin is not None:
+                try:
+                    apply_mutator(twin, op)
+                    trej = None
+                except Exception as e:  # noqa: BLE001
+                    trej = ERRCODE.get(type(e).__name__, type(e).__name__)
+                tafter = deep_content(twin)
+                if trej != rej or tafter != after:
+                    viol = (i, f"{op[0]} depends on more than the content (memoised cache / objects shared with earlier calls): on this "
+                               f"model outcome {rej}, content {after}; on a freshly built model with the same content before "
+                               f"the edit outcome {trej}, content {tafter}")
+            # the arguments were values: the caller overwrites its own containers, the model stays as it is
+            if viol is None:
+                for cls in ("map", "args"):
+                    objs = [o for c, o in inp.touched if c == cls]
+                    if not objs:
+                        continue
+                    saved = poison(objs)
+                    now = safe_content(m)
+                    unpoison(saved)
+                    if now != after:
+                        if cls == "args" and listed(FINDING_INPUTS):
+                            _count(stats, FINDING_INPUTS, {"history": list(ops[: i + 1])})
+                        else:
+                            viol = (i, f"{op[0]} keeps the caller's {'mapping' if cls == 'map' else 'list'} object: after the call the "
+                                       f"caller overwrote its own argument and the model changed without any edit: {after} -> {now}")
+                            break
             # single name space: the registry is exactly the union of the containers
             if viol is None:
                 ck = content_keys(m)
@@ -784,7 +1027,26 @@ def run_history(ops: list[tuple], stats: dict | None = None):
                 union = [x for ks in ck for x in ks] + list(outs)
                 if reg != set(union) or len(union) != len(set(union)):
                     viol = (i, f"name space inconsistent after {op[0]}: ids={sorted(reg)} containers={ck} outputs={sorted(outs)}")
+    if stats is not None:
+        stats["shared_argument_objects"] = stats.get("shared_argument_objects", 0) + inp.shared
     return obs, viol
+
+
+def _coverage(stats: dict, m, op: tuple) -> None:
+    """how often the generated edits hit the situations the aliasing / batch oracles need"""
+    from mxlpy.types import InitialAssignment
+
+    if op[0] == "scale_parameters" and len(op[1]) > 1:
+        pars = m.get_raw_parameters(as_copy=False)
+        if any(isinstance(getattr(pars.get(nm(n)), "value", None), InitialAssignment) for n, _q in op[1]):
+            stats["scale_batches_with_assigned_parameter"] = stats.get("scale_batches_with_assigned_parameter", 0) + 1
+    if op[0] in ("add_reaction", "update_reaction") and op[4]:
+        vs = set(m.get_raw_variables(as_copy=False))
+        for _c, cf in op[4]:
+            reads = [cf[1]] if cf[0] == "named" else (cf[2] if cf[0] == "dyn" else [])
+            if any(nm(a) in vs for a in reads):
+                stats["variable_dependent_coefficients"] = stats.get("variable_dependent_coefficients", 0) + 1
+                break
 
 
 def track(known: dict[int, str], op: tuple, ob: tuple) -> None:
@@ -798,21 +1060,31 @@ def track(known: dict[int, str], op: tuple, ob: tuple) -> None:
 
 
 def gen_history(rng, length: int):
-    """Generate adaptively: ops are drawn knowing the registry the implementation reported so far."""
+    """Generate adaptively: ops are drawn knowing the registry the implementation reported so far, which parameters are
+    given by an initial assignment (and what they read), and the stoichiometries used so far (re-used for other reactions
+    with probability 0.3, so that the SAME mapping object reaches several reactions, see Inputs)."""
     from mxlpy import Model
+    from mxlpy.types import InitialAssignment
 
     ops: list[tuple] = []
     known: dict[int, str] = {}
+    recent: list[list] = []
     m = Model()
     for _ in range(length):
-        op = gen_op(rng, {k: v for k, v in known.items() if k not in EXTRA or v != "surrogate"} | {k: v for k, v in known.items()})
+        ia = {un(k): [un(a) for a in v.value.args] for k, v in m.get_raw_parameters(as_copy=False).items()
+              if isinstance(v.value, InitialAssignment)}
+        op = gen_op(rng, dict(known), hints={"ia": ia})
+        if op[0] in ("add_reaction", "update_reaction") and op[4] is not None:
+            if recent and rng.random() < 0.3:
+                op = (*op[:4], rng.choice(recent))
+            elif op[4] and op[4] not in recent:
+                recent.append(op[4])
         ops.append(op)
         if not is_query(op):
             try:
                 apply_mutator(m, op)
             except Exception:  # noqa: BLE001
                 pass
-            inv = {v: k for k, v in KINDCODE.items()}
             known = {un(a): b for a, b in m.ids.items()}
     return ops
 
@@ -830,7 +1102,11 @@ def check(run: Run) -> None:
         "arity differs from their argument list, generated adaptively from the registry so that most edits are legal; plus all "
         "histories `populate ; query ; mutator ; every query` over every single-item and batch mutator; compared with the Gallina "
         "state machine after every step (outcome class, registry, container keys, raw parameter/variable values, answers); "
-        "non-trivial = history contains a query followed later by a mutator and another query; distinct by content"
+        "second round: coefficients may read variables, stoichiometries are re-used between reactions (one mapping object), "
+        "scale_parameters batches biased towards an assigned parameter plus a parameter it reads, a third populated model with two "
+        "reactions built from one mapping, all ordered pairs of query kinds with non-initial states; every edit is also made on a fresh "
+        "rebuild of the pre-state, argument containers and returned objects are overwritten by the caller, the rhs is probed after "
+        "every query; non-trivial = history contains a query followed later by a mutator and another query; distinct by content"
     )
     run.check_proofs(AREA, PROPS)
     run.check_proofs("editproofs", "PropsC03b.v")  # registry / rejected-edit / name-reuse theorems
@@ -838,7 +1114,11 @@ def check(run: Run) -> None:
         "Coq 8.16.1 kernel + vm_compute; theorems closed under the global context (see trusted_base)",
         "modelled: containers as ordered association lists, surrogates as MockSurrogate records, data sets as scalars, "
         "functions from the polynomial library (plain positional signatures; ArityMismatchError is recorded in the class of "
-        "TypeError; units, sources, aliasing of objects returned by queries or shared between models are outside the model)",
+        "TypeError; units and sources are outside the model; objects handed over as such -- InitialAssignment, Derived coefficients, "
+        "surrogate and data objects -- are shared by design and not part of the value discipline checked here)",
+        "caller writes to exchanged containers: modelled in coq/edit/Alias.v by regenerated mode (body texts of the two getters and the "
+        "seven container-taking mutators compared as a whole); the overwrite-and-compare of the harness is an oracle on the real code "
+        "only, the Alias.v semantics are not in the vm_compute correspondence",
         "batch forms: modelled in the two forms harness/c03_facts.py recognises statement by statement (plain fold / validate-first "
         "of fixes/C03-batch-edits-atomic.diff); Mapping arguments as the list of pairs the dict is built from",
         "fact extractor (decorator presence per method, unknown container-writing methods, form of the batch methods, where the arity "
@@ -875,12 +1155,43 @@ def check(run: Run) -> None:
             hists.append((base2 if rnd % 2 else base) + [q1, op, ("q_ids",), ("q_args", None, 0), ("q_rhs", None, 0), ("q_ic",), ("q_parvals",),
                                                         ("q_derpar",), ("q_fluxes", None, 0), ("q_stoich", None, 0)])
             n_sys += 1
+    # every fourth round: two reactions given ONE stoichiometry mapping, a computed coefficient over a variable
+    shared = [(12, ("stat", -1)), (16, ("dyn", 6, [12]))]
+    base3 = base + [("add_parameter", 36, ("plain", 2)), ("add_reaction", 37, 4, [11, 12], shared), ("add_reaction", 38, 4, [11, 16], shared),
+                    ("add_parameter", 39, ("ia", 4, [11, 36]))]
+    known3 = {11: "parameter", 12: "variable", 16: "variable", 13: "derived", 14: "reaction", 15: "surrogate", 31: "data", 32: "readout",
+              33: "parameter", 36: "parameter", 37: "reaction", 38: "reaction", 39: "parameter"}
+    ia3 = {33: [11, 12], 39: [11, 36]}
+    for rnd in range(4 if thorough else 2):
+        for meth in METHODS + BATCH:
+            for _try in range(20):
+                op = gen_op(rng, dict(known3), force=meth, hints={"ia": ia3})
+                if op[0] == meth:
+                    break
+            else:
+                continue
+            if meth in ("add_reaction", "update_reaction") and op[4] is not None and rng.random() < 0.5:
+                op = (*op[:4], shared)
+            if meth == "make_parameter_dynamic" and rng.random() < 0.7:
+                op = (op[0], rng.choice([36, 11]), op[2], [(rng.choice([37, 38, 14]), rng.choice([-1, 1, 2]))])
+            q1 = rng.choice([("q_args", None, 0), ("q_rhs", None, 1), ("q_parvals",), ("q_stoich", [(12, 2), (16, -1)], 0), ("q_fluxes", None, 0)])
+            hists.append(base3 + [q1, op, *_ALLQ])
+            n_sys += 1
+    # query pairs: `populate ; qA ; qB` for every ordered pair of query kinds (states different from the initial one
+    # included): no query changes what a later one answers
+    qs = [("q_ids",), ("q_args", None, 0), ("q_args", [(12, -1), (16, 2)], 1), ("q_rhs", None, 0), ("q_rhs", [(12, 2), (16, 1)], 2), ("q_ic",),
+          ("q_parvals",), ("q_derpar",), ("q_fluxes", None, 0), ("q_fluxes", [(12, -2), (16, -1)], 0), ("q_stoich", None, 0),
+          ("q_stoich", [(12, -2), (16, 1)], 1), ("q_stoich", [(12, 2), (16, 2)], 0)]
+    for qa in qs:
+        hists.append(base3 + [qa] + [qb for qb in qs])
+        n_sys += 1
     n_rand = 4000 if thorough else 500
     for _ in range(n_rand):
         hists.append(gen_history(rng, rng.randint(3, 14)))
 
     dist = {"histories": 0, "systematic": n_sys, "discarded": 0, "ops": {}, "rejected_edits": 0, "accepted_edits": 0,
-            "query_answers": 0, "query_errors": 0, "stale_pattern": 0, "batch_partial": 0, "corpus": len(CORPUS)}
+            "query_answers": 0, "query_errors": 0, "stale_pattern": 0, "batch_partial": 0, "corpus": len(CORPUS), "known": {},
+            "shared_argument_objects": 0, "scale_batches_with_assigned_parameter": 0, "variable_dependent_coefficients": 0}
     coq_h, kept = [], []
     n_viol = 0
     for h in hists:
@@ -922,9 +1233,15 @@ def check(run: Run) -> None:
     # engineers work concurrently in this tree: when another run recompiled coq/core underneath us the shards fail with
     # "makes inconsistent assumptions over library ..." -- that says nothing about /repo: rebuild the area and evaluate
     # the affected shards once more (a shard that fails for any other reason, or again, is reported as before)
-    stale = {n: files[n] for n, (ok, out) in res.items() if not ok and "inconsistent assumptions" in out}
-    if stale:
-        run.note(f"{len(stale)} correspondence shards hit a concurrent rebuild of a dependency; rebuilding {AREA} and retrying them once")
+    import time as _time
+
+    for attempt in range(3):
+        stale = {n: files[n] for n, (ok, out) in res.items() if not ok and "inconsistent assumptions" in out}
+        if not stale:
+            break
+        run.note(f"{len(stale)} correspondence shards hit a concurrent rebuild of a dependency; rebuilding {AREA} and retrying them "
+                 f"(attempt {attempt + 1} of 3)")
+        _time.sleep(10 * attempt)
         common.coq_build(AREA)
         res.update(common.coq_eval_many(AREA, stale, timeout_s=900))
     mism = 0
@@ -948,17 +1265,19 @@ def check(run: Run) -> None:
         except Exception as e:  # noqa: BLE001
             run.broken_correspondence.append(f"witness of finding {f['id']} no longer runs: {type(e).__name__}: {e}")
             continue
-        if st.get("batch_partial"):
-            run.known(f["id"], f["what_fails"] + f" [seen in {dist['batch_partial']} generated batch edits of this run]")
+        hit = st.get("batch_partial") if f["id"] == FINDING_BATCH else st.get("known", {}).get(f["id"])
+        seen = dist["batch_partial"] if f["id"] == FINDING_BATCH else dist["known"].get(f["id"], 0)
+        if hit:
+            run.known(f["id"], f["what_fails"] + f" [seen at {seen} steps of this run's histories]")
         else:
-            run.note(f"finding {f['id']}: the witness no longer fails (violation on it: {v}) -- move it to 'fixed' (tools/c03_switch.py repaired)")
+            run.note(f"finding {f['id']}: the witness no longer fails (violation on it: {v}) -- move it to 'fixed' (tools/c03_switch.py)")
     # a proof obligation or the correspondence broke but the oracle saw nothing wrong on this run's
     # histories: search harder for a concrete failing history (implementation + fresh-rebuild oracle
     # only; the Coq model is not consulted): `populate ; query ; mutator ; every query` for many
     # argument choices of every mutator, the populated model using each parameter in a rate, a derived
     # quantity, an initial assignment and as a named / computed stoichiometric coefficient
     if (run.broken_obligations or run.broken_correspondence) and n_viol == 0:
-        found = _targeted_search(rng, base, 60)
+        found = _targeted_search(rng, base, 25)
         run.coverage["targeted_search_histories"] = found[1]
         if found[0] is not None:
             h, viol = found[0]
